@@ -592,7 +592,9 @@ def run(ctx):
                 ctx.sample({"class": s.classes[ci].name, "betterproto_json": safe(lambda: m.to_json())[:300],
                             "reference_json": safe(lambda: rs.to_json(ci, rs.build(ci, a)))[:300]})
             if ctx.thorough or (it % 4 == 0 if si == 0 else it < 25):
-                t3_cases.append((si, ci, a, lit))
+                # an object whose constructor was handed two members of one group keeps the loser's value in its raw state, where
+                # emit_good's in_range sees it and the abstraction does not - the literal is kept for abs_obj only
+                t3_cases.append((si, ci, a, lit if lit is None or not stale_member(m) else ("STALE", lit)))
 
     # ---------------------------------------------------------------- 3. key mapping: one-field classes per proto field name
     names = gen_names(ctx)
@@ -1114,6 +1116,32 @@ def dur_beyond_model_range(schema, a):
     return False
 
 
+def stale_member(m):
+    """some message inside m holds a value in a oneof member that its group does not select (two members given to the constructor)"""
+    import betterproto as bp
+    seen = []
+
+    def walk(x):
+        if isinstance(x, bp.Message):
+            if any(x is y for y in seen):
+                return False
+            seen.append(x)
+            cur = x.__dict__.get("_group_current", {})
+            for name, meta in x._betterproto.meta_by_field_name.items():
+                v = x.__dict__.get(name, bp.PLACEHOLDER)
+                if meta.group and v is not bp.PLACEHOLDER and cur.get(meta.group) != name:
+                    return True
+                if walk(v):
+                    return True
+            return False
+        if isinstance(x, (list, tuple)):
+            return any(walk(y) for y in x)
+        if isinstance(x, dict):
+            return any(walk(y) for y in x.values())
+        return False
+    return walk(m)
+
+
 def nan_payload(lit):
     """the object literal holds a NaN other than float("nan") (JSON has the one token "NaN": C04's cls nan-payload)"""
     for mt in re.finditer(r"PFloat \((\d+)\)", lit):
@@ -1154,8 +1182,13 @@ def run_t4(ctx, schemas, t3_cases):
         meta.append(("wf_aval (hypothesis of C05_accept) holds exactly outside K13 / plain-zero-time", detail))
         if lit is None:
             continue
-        pairs.append((f"cbool (emit_good sc{si} {lit})", lib.cbool(not k13 and not nan_payload(lit))))
-        meta.append(("emit_good (hypothesis of C05_emit) holds exactly outside K13 / NaN payloads", detail))
+        stale = isinstance(lit, tuple)
+        if stale:
+            lit = lit[1]
+            ctx.count("t4_stale_oneof_member_objects")
+        if not stale:      # (a stale value is invisible to the abstraction `a` the expectation is computed from, but in_range sees it)
+            pairs.append((f"cbool (emit_good sc{si} {lit})", lib.cbool(not k13 and not nan_payload(lit))))
+            meta.append(("emit_good (hypothesis of C05_emit) holds exactly outside K13 / NaN payloads", detail))
         if not multi_entry_map(s, a):      # abs_obj keeps dict order, the harness sorts entries
             pairs.append((f"cv_of_aval (abs_obj sc{si} {lit})", cv_aval(s, a)))
             meta.append(("abs_obj (Proofs/C05MsgDef.v) vs the harness's abstraction abs_bp", detail))
